@@ -10,6 +10,7 @@ EXPLANATION = (
     "lists as the owner's decoder reads) and vacuum selects WAL roots with the same epoch comparisons as recovery (scan_wal_roots ~ scan_recovery_state); "
     "(3) PATH — the copy is synced before the original is renamed away, and target->backup precedes tmp->target. Logical equality of content is not decided."
     " C28.6 = C18.3: the B-tree reachability walk follows every pointer an internal page stores."
+    " C28.7: every Ok return of csr::segment_data_page_ids passes through decode_page_lists, the decoder CsrSegment::load uses."
 )
 
 V = "nervusdb_storage::vacuum::"
